@@ -190,6 +190,31 @@ def run_case(spec, inputs=None):
                                                            set(diff_tables(d1_tables, ds[1] or {}))),
           extra=dict(arguments_changed_by_the_run=mutated))
     hist.append("shared-argument-objects")
+    # the caller corrects its baseline frame IN PLACE (same object, same address) and runs again: the answer must be the
+    # one a fresh process gives for the corrected frame, i.e. nothing may have been remembered about that object
+    if spec["i"] % 2 == 0:
+        objs2 = harness.shared_objects(el, feed, call)
+        with harness.patched() as p:
+            if est == "gaussian":
+                harness.fast_boot_sigma(p)
+            harness.run_estimates_shared(el, feed, call, cm.ModelClient(), objs2)
+            pre_obj = objs2["pre"]
+            jrows = pre_obj.index[: max(1, len(pre_obj) // 3)]
+            for c_ in ("baseline_turnout", "baseline_dem", "baseline_gop"):
+                pre_obj.loc[jrows, c_] = (pre_obj.loc[jrows, c_] * 1.5).round().astype(pre_obj[c_].dtype)
+            for c_ in [c for c in pre_obj.columns if c.startswith("last_election_results_") or c in (
+                    "baseline_weights", "baseline_margin", "baseline_normalized_margin")]:
+                del pre_obj[c_]
+            r_same, e_same = harness.run_estimates_shared(el, feed, call, cm.ModelClient(), objs2)
+            objs3 = harness.shared_objects(el, feed, call)
+            objs3["pre"] = pre_obj.copy(deep=True)
+            r_new, e_new = harness.run_estimates_shared(el, feed, call, cm.ModelClient(), objs3)
+        if (e_same is None) != (e_new is None) or (e_same is None and diff_tables(
+                harness.results_digest(r_same), harness.results_digest(r_new))):
+            V("baseline-frame-edited-in-place", [] if e_same is not None or e_new is not None else diff_tables(
+                harness.results_digest(r_same), harness.results_digest(r_new)),
+              extra=dict(same_object=repr(e_same), equal_copy=repr(e_new)))
+        hist.append("baseline-edited-in-place")
     out["counters"]["runs"] = 8
     # (vi) the seed is wired: another seed can change the output
     scall = copy.deepcopy(call)
